@@ -3,11 +3,17 @@ use pallas::ledger::primitives::{
     Hash, NonZeroInt, PositiveCoin,
 };
 use std::collections::{btree_map::Entry, BTreeMap};
+use tx3_tir::compile::Error;
+
+fn out_of_range(target: &str) -> Error {
+    Error::CoerceError("total amount out of range".to_string(), target.to_string())
+}
 
 fn fold_assets<T>(
     acc: &mut BTreeMap<pallas::codec::utils::Bytes, T>,
     item: BTreeMap<pallas::codec::utils::Bytes, T>,
-) where
+) -> Result<(), Error>
+where
     T: SafeAdd + Copy,
 {
     for (key, value) in item.into_iter() {
@@ -15,8 +21,10 @@ fn fold_assets<T>(
             Entry::Occupied(mut entry) => {
                 if let Some(new_val) = value.try_add(*entry.get()) {
                     entry.insert(new_val);
-                } else {
+                } else if value.cancels(*entry.get()) {
                     entry.remove();
+                } else {
+                    return Err(out_of_range("asset amount"));
                 }
             }
             Entry::Vacant(entry) => {
@@ -24,17 +32,20 @@ fn fold_assets<T>(
             }
         }
     }
+
+    Ok(())
 }
 
 pub fn fold_multiassets<T>(
     acc: &mut BTreeMap<Hash<28>, BTreeMap<pallas::codec::utils::Bytes, T>>,
     item: BTreeMap<Hash<28>, BTreeMap<pallas::codec::utils::Bytes, T>>,
-) where
+) -> Result<(), Error>
+where
     T: SafeAdd + Copy,
 {
     for (key, value) in item.into_iter() {
         let mut map = acc.remove(&key).unwrap_or_default();
-        fold_assets(&mut map, value);
+        fold_assets(&mut map, value)?;
 
         // amounts that cancel remove the asset; a policy left without assets is
         // dropped as well instead of being emitted with an empty map
@@ -42,52 +53,66 @@ pub fn fold_multiassets<T>(
             acc.insert(key, map);
         }
     }
+
+    Ok(())
 }
 
 pub fn aggregate_assets<T>(
     items: impl IntoIterator<Item = conway::Multiasset<T>>,
-) -> Option<conway::Multiasset<T>>
+) -> Result<Option<conway::Multiasset<T>>, Error>
 where
     T: SafeAdd + Copy,
 {
     let mut total_assets = BTreeMap::new();
 
     for assets in items {
-        fold_multiassets(&mut total_assets, assets);
+        fold_multiassets(&mut total_assets, assets)?;
     }
 
     if total_assets.is_empty() {
-        None
+        Ok(None)
     } else {
-        Some(total_assets)
+        Ok(Some(total_assets))
     }
 }
 
-pub fn aggregate_values(items: impl IntoIterator<Item = Value>) -> Value {
-    let mut total_coin = 0;
+pub fn try_aggregate_values(items: impl IntoIterator<Item = Value>) -> Result<Value, Error> {
+    let mut total_coin: u64 = 0;
     let mut assets = vec![];
 
     for value in items {
-        match value {
-            Value::Coin(x) => {
-                total_coin += x;
-            }
+        let coin = match value {
+            Value::Coin(x) => x,
             Value::Multiasset(x, y) => {
-                total_coin += x;
                 assets.push(y);
+                x
             }
-        }
+        };
+
+        total_coin = total_coin
+            .checked_add(coin)
+            .ok_or_else(|| out_of_range("Coin"))?;
     }
 
-    if let Some(total_assets) = aggregate_assets(assets) {
-        Value::Multiasset(total_coin, total_assets)
+    if let Some(total_assets) = aggregate_assets(assets)? {
+        Ok(Value::Multiasset(total_coin, total_assets))
     } else {
-        Value::Coin(total_coin)
+        Ok(Value::Coin(total_coin))
     }
 }
 
+/// Infallible form of [`try_aggregate_values`] for totals known to be in range.
+#[cfg(test)]
+pub fn aggregate_values(items: impl IntoIterator<Item = Value>) -> Value {
+    try_aggregate_values(items).expect("total value out of range")
+}
+
 pub trait SafeAdd: Sized {
+    /// The sum, unless it is zero or does not fit the type.
     fn try_add(self, other: Self) -> Option<Self>;
+
+    /// Whether the two amounts add up to exactly zero.
+    fn cancels(self, other: Self) -> bool;
 }
 
 impl SafeAdd for NonZeroInt {
@@ -96,6 +121,12 @@ impl SafeAdd for NonZeroInt {
         let rhs: i64 = other.into();
         NonZeroInt::try_from(lhs.checked_add(rhs)?).ok()
     }
+
+    fn cancels(self, other: Self) -> bool {
+        let lhs: i64 = self.into();
+        let rhs: i64 = other.into();
+        lhs.checked_add(rhs) == Some(0)
+    }
 }
 
 impl SafeAdd for PositiveCoin {
@@ -103,6 +134,10 @@ impl SafeAdd for PositiveCoin {
         let lhs: u64 = self.into();
         let rhs: u64 = other.into();
         PositiveCoin::try_from(lhs.checked_add(rhs)?).ok()
+    }
+
+    fn cancels(self, _other: Self) -> bool {
+        false
     }
 }
 
